@@ -21,7 +21,14 @@ func usage() {
 // verify generates the VCs of one function (two passes: the first collects
 // the heap keys each loop writes, the second cuts the loops with them).
 func (e *Engine) verify(fn *ssa.Function, ctr *Contract, opts *genOptions) *gen {
+	return e.verifyWith(fn, ctr, opts, nil)
+}
+
+func (e *Engine) verifyWith(fn *ssa.Function, ctr *Contract, opts *genOptions, setup func(*gen)) *gen {
 	g1 := e.newGen(fn, ctr, nil)
+	if setup != nil {
+		setup(g1)
+	}
 	if opts != nil {
 		g1.options = *opts
 	}
@@ -47,6 +54,9 @@ func (e *Engine) verify(fn *ssa.Function, ctr *Contract, opts *genOptions) *gen 
 		g2.options = *opts
 	}
 	g2.options.safety = safety
+	if setup != nil {
+		setup(g2)
+	}
 	g2.knownSorts = g1.heapSort
 	g2.run()
 	return g2
@@ -71,6 +81,7 @@ func main() {
 			fmt.Fprintln(os.Stderr, "contracts:", err)
 			os.Exit(2)
 		}
+		e.computeWrittenKeys()
 		if os.Args[1] == "list" {
 			for _, k := range e.sortedFuncKeys() {
 				fmt.Println(k)
@@ -95,8 +106,26 @@ func main() {
 				fn.WriteTo(os.Stdout)
 				continue
 			}
-			verbose := len(os.Args) > 3 && os.Args[3] == "-v"
-			g := e.verify(fn, e.ctrs[funcKey(fn)], nil)
+			verbose := false
+			sweep := false
+			for _, a := range os.Args[3:] {
+				if a == "-v" {
+					verbose = true
+				}
+				if a == "--sweep" {
+					sweep = true
+				}
+			}
+			var g *gen
+			if sweep {
+				ctr := e.ctrs[funcKey(fn)]
+				if ctr == nil {
+					ctr = e.sweepContract(fn, "C01")
+				}
+				g = e.verifyWith(fn, ctr, &genOptions{safety: true}, func(g *gen) { g.astValid = true; g.nilArgs = true; g.options.safety = true })
+			} else {
+				g = e.verify(fn, e.ctrs[funcKey(fn)], nil)
+			}
 			var jobs []job
 			for _, o := range g.obls {
 				jobs = append(jobs, job{g, o})
